@@ -76,6 +76,9 @@ def gen_plan(seed, tier):
     desc = dict(desc, int_rows=r.choice([0.3, 0.6]))
   fault_run = r.random() < 0.45
   pre = "store" if fault_run else r.choice(["store", "ndarray", "list"])
+  rr = substream(seed, "c05-store-returns")
+  if pre == "store" and rr.random() < 0.3:
+    desc = dict(desc, store_returns=rr.choice(["list", "tuple"]))
   ops = []
   n_ops = r.randint(3, 9)
   ts = tuple_size(name)
@@ -309,7 +312,8 @@ def run_plan(plan):
   if plan.get("int_store"):
     # the formed data must be what the preprocessor yields: a nested list of
     # Python ints becomes int64, an ndarray / store keeps its integer dtype
-    D.S = D.S.astype("int64" if plan["pre"] == "list" else plan["int_store"])
+    as_python_ints = plan["pre"] == "list" or (plan["pre"] == "store" and plan["dataset"].get("store_returns"))
+    D.S = D.S.astype("int64" if as_python_ints else plan["int_store"])
     cov["integer_store"] += 1
   name = plan["cls"]
   R = Resolver()
@@ -317,7 +321,8 @@ def run_plan(plan):
   pb = {k: copy.deepcopy(v) for k, v in pa.items()}
   store = None
   if plan["pre"] == "store":
-    store = world.PointStore(D.S.copy(), mixed=bool(plan["dataset"].get("int_rows")))
+    store = world.PointStore(D.S.copy(), mixed=bool(plan["dataset"].get("int_rows")),
+                             returns=plan["dataset"].get("store_returns"))
     pre = store
   elif plan["pre"] == "ndarray":
     pre = D.S.copy()
